@@ -236,6 +236,8 @@ def run_c10(tier, seed, pid="C10"):
     for t in rng.sample(good, min(10 if tier == "quick" else 80, len(good))):
         for g in ("dbc", "can_c"):
             scenarios.append((g, t, "superset", "api"))
+        for g in ("dbc", "cpp", "nop"):
+            scenarios.append((g, t, "crlf-copy", "api"))
     # output files below the output directory: a bus name with "/" makes fcp_dbc return <out>/<dir>/<name>.dbc; whether
     # the sub-directory exists beforehand or not, every returned file must end up written
     for t in rng.sample(good, min(12 if tier == "quick" else 100, len(good))):
@@ -265,11 +267,16 @@ def run_c10(tier, seed, pid="C10"):
     traces, meta = [], {}
     out = os.path.join(chk.workdir, "out")
     for i, (gen, tree, ds, via) in enumerate(scenarios):
-        if ds == "superset":
+        if ds in ("superset", "crlf-copy"):
             prepare_dir(out, "unrelated", gen)
             for name, contents in returned_files(gen, build.mk_fcp(tree)).items():
-                with open(os.path.join(out, name), "w") as f:
-                    f.write(contents + "\n/* stale tail left over from an earlier, longer output */\n")
+                os.makedirs(os.path.dirname(os.path.join(out, name)) or out, exist_ok=True)
+                with open(os.path.join(out, name), "w", newline="") as f:
+                    if ds == "superset":
+                        f.write(contents + "\n/* stale tail left over from an earlier, longer output */\n")
+                    else:
+                        # the same output as saved by an editor of another platform: equal text, other bytes
+                        f.write(contents.replace("\n", "\r\n"))
                 os.utime(os.path.join(out, name), ns=(10 ** 18, 10 ** 18))
         else:
             prepare_dir(out, ds, gen)
